@@ -11,8 +11,8 @@ PROPS = {
             'behaviour of MergeOnce after it first returned None beyond what its invariant says',
         ]),
     'C19': dict(
-        units=['heaps', 'heightwalk'], level='proof',
-        replays=['c19_limit.rs'],
+        units=['heaps', 'heightwalk', 'edges'], level='proof',
+        replays=['c19_limit.rs', 'c19_drop_after_height_panic.rs'],
         uncovered=[
             'that closing a cycle through binds reaches ensure_height_requirement with the offending pair (graph walk in adjust_heights: not under contract)',
             'termination of adjust_heights ("never hangs")',
@@ -66,7 +66,7 @@ PROPS = {
             'that value_opt writers are reachable only from stabilise or expert invalidate: written argument, not machine-checked',
         ]),
     'C13': dict(
-        units=['heaps', 'observer', 'var'], level='other',
+        units=['heaps', 'observer', 'var', 'edges'], level='other',
         replays=[],
         uncovered=[
             '"dropping every handle and the state completes without a second panic": unwinding / Drop order is outside both verifiers',
